@@ -360,7 +360,18 @@ func execConv(a []string) (string, string) {
 	// convert its hundredth reading as it converts its first
 	if len(a) >= 6 {
 		for _, w := range unhx(a[5]) {
-			c15Read(rd, 0, []byte{w, 0x40, 0xc0})
+			// most warm-up reads succeed; some FAIL — a refused command (completion code CBh), a reading marked unavailable, a
+			// response too short to decode: the read after a failed read converts like any other
+			switch w % 7 {
+			case 0:
+				c15Read(rd, 0xCB, nil)
+			case 1:
+				c15Read(rd, 0, []byte{w, 0x60, 0xc0})
+			case 2:
+				c15Read(rd, 0, []byte{w})
+			default:
+				c15Read(rd, 0, []byte{w, 0x40, 0xc0})
+			}
 		}
 	}
 	val, rerr, reqs := c15Read(rd, cc, data)
